@@ -15,6 +15,8 @@ func main() {
 		encryptMain(os.Args[2:])
 	case "enctree":
 		enctreeMain(os.Args[2:])
+	case "enctag":
+		enctagMain(os.Args[2:])
 	case "ce":
 		ceMain(os.Args[2:])
 	case "json":
